@@ -22,10 +22,12 @@ import (
 	"errors"
 	"flag"
 	"fmt"
+	"hash/fnv"
 	"io"
 	"net/url"
 	"os"
 	"path/filepath"
+	"regexp"
 	"sort"
 	"strings"
 	"sync/atomic"
@@ -386,12 +388,14 @@ type item struct {
 }
 
 type gen struct {
-	r     *vh.Rng
-	rep   *vh.Report
-	items []item
-	known map[string]vh.Finding
-	seenD map[string]struct{}
-	viol  []vh.Case // added to the report after the disagreements (the report keeps the first 200 cases)
+	r      *vh.Rng
+	rep    *vh.Report
+	items  []item
+	known  map[string]vh.Finding
+	seenD  map[uint64]struct{}
+	flush  func() // compares the queued items with the model and empties the queue
+	queued int
+	viol   []vh.Case // added to the report after the disagreements (the report keeps the first 200 cases)
 }
 
 func (g *gen) violation(key, op, detail string) {
@@ -420,9 +424,15 @@ func (g *gen) dec(kind, pkg string, fail bool, base string, b []byte, nontrivial
 	op := fmt.Sprintf("ttld.dec %s %s %s %s", pkg, endName(fail), baseTok(base), vh.X(b))
 	res := goDecode(pkg, fail, base, b, 0)
 	g.judge(op, res)
-	if _, dup := g.seenD[op]; !dup {
-		g.seenD[op] = struct{}{}
+	hh := fnv.New64a()
+	hh.Write([]byte(op))
+	if _, dup := g.seenD[hh.Sum64()]; !dup {
+		g.seenD[hh.Sum64()] = struct{}{}
 		g.items = append(g.items, item{line: op, goR: res.wire, kind: kind})
+		g.queued += len(op)
+		if g.flush != nil && (len(g.items) >= 40000 || g.queued > 64<<20) {
+			g.flush()
+		}
 	}
 	g.rep.Eval(op, nontrivial && len(res.stmts) > 0)
 	g.rep.Count("op:" + kind)
@@ -454,6 +464,8 @@ func (g *gen) c07(kind, base string, b []byte, fail bool) {
 	}
 }
 
+var labelWithColon = regexp.MustCompile(`_:[^\s<>"]*:`)
+
 // c07nt: N-Triples bytes through all four decoders.
 func (g *gen) c07nt(kind string, b []byte) {
 	nt := goDecode("nt", false, "", b, 0)
@@ -473,6 +485,13 @@ func (g *gen) c07nt(kind string, b []byte) {
 			o = g.dec(kind, pkg, false, "", b, true)
 		}
 		if o.verdict != "clean" || strings.Join(o.stmts, ";") != strings.Join(nt.stmts, ";") {
+			// known-finding class `bnode-label-contains-colon` (token layer, D32): ':' is a PN_CHARS_U rune for the
+			// N-Triples / N-Quads decoders only
+			if f, ok := g.known["bnode-label-contains-colon"]; ok && pkg != "nq" && labelWithColon.Match(b) {
+				g.rep.Add(vh.Case{Kind: "known", Key: f.Key, Op: "nt through " + pkg + " " + vh.X(b), Detail: f.What})
+				g.rep.Count("known:" + f.Key)
+				continue
+			}
 			g.violation("C07", "N-Triples document through "+pkg+": "+vh.X(b), fmt.Sprintf("ntriples: %s, %s: %s", nt.wire, pkg, o.wire))
 		}
 	}
@@ -918,7 +937,7 @@ func (d *docGen) triples() {
 		d.sb.WriteString("]")
 		if d.r.Chance(50) {
 			d.ws(true)
-			// only a single predicate-object pair: `;` after a blankNodePropertyList subject is rejected (D32)
+			// only a single predicate-object pair: `;` after a blankNodePropertyList subject is rejected (D42)
 			d.verb()
 			d.object()
 		}
@@ -1236,7 +1255,62 @@ func main() {
 			known[k] = v
 		}
 	}
-	g := &gen{r: vh.NewRng(seed), rep: rep, known: known, seenD: map[string]struct{}{}}
+	g := &gen{r: vh.NewRng(seed), rep: rep, known: known, seenD: map[uint64]struct{}{}}
+
+	var disagreements []vh.Case
+	compare := func() {
+		if len(g.items) == 0 {
+			return
+		}
+		lines := make([]string, len(g.items))
+		for i, it := range g.items {
+			lines[i] = it.line
+		}
+		res, err := vh.Driver{Path: *driver}.RunParallel(lines)
+		if err != nil {
+			fmt.Fprintln(os.Stderr, err)
+			os.Exit(2)
+		}
+		for i, it := range g.items {
+			rep.Compared++
+			if res[i] == it.goR {
+				continue
+			}
+			if it.kind == "resolve" {
+				if res[i] == "unsure" {
+					rep.Count("resolve:outside-safe-fragment")
+					continue
+				}
+				disagreements = append(disagreements, vh.Case{Kind: "disagreement", Op: it.line, Go: it.goR, Model: res[i], Detail: "IRI resolution inside the safe fragment"})
+				continue
+			}
+			ms, mv := splitWire(res[i])
+			gs, _ := splitWire(it.goR)
+			if mv == "err:resolve" && isPrefixOf(ms, gs) {
+				// the model's resolver declined (outside its safe fragment); the statements before agree
+				rep.Count("resolver-skip")
+				rep.Count("resolver-skip:" + it.kind)
+				if os.Getenv("C05TTL_SHOWSKIPS") != "" && len(it.line) < 400 {
+					f := strings.Fields(it.line)
+					raw, _ := vh.UnX(f[4])
+					fmt.Printf("SKIP %s %s %q\n", f[1], f[3], raw)
+				}
+				continue
+			}
+			if len(disagreements) < 200 {
+				disagreements = append(disagreements, vh.Case{Kind: "disagreement", Op: it.line, Go: it.goR, Model: res[i], Detail: it.kind})
+			}
+			if *shrinkN > 0 {
+				*shrinkN--
+				fmt.Println("DISAGREEMENT (minimised):", shrinkLine(it.line))
+			}
+		}
+		g.items = g.items[:0]
+		g.queued = 0
+	}
+	if !*nomodel {
+		g.flush = compare
+	}
 
 	replayLines := func(path string) {
 		b, err := os.ReadFile(path)
@@ -1278,9 +1352,9 @@ func main() {
 			g.c15chunk("turtle", "", []byte(d), false)
 			g.c15chunk("trig", "", []byte(d), false)
 		}
-		n, cuts, w3cuts := 600**scale, 8, 4
+		n, cuts, w3cuts := 2500**scale, 8, 4
 		if *tier == "thorough" {
-			n, cuts, w3cuts = 12000**scale, -1, -1
+			n, cuts, w3cuts = 5000**scale, -1, -1
 			rep.Exhaustive = append(rep.Exhaustive, "every proper prefix of every generated document and of every W3C Turtle/TriG file")
 		} else {
 			cuts = 64 / 8
@@ -1296,6 +1370,9 @@ func main() {
 	}
 
 	finish := func() {
+		for _, c := range disagreements {
+			rep.Add(c)
+		}
 		for _, c := range g.viol {
 			rep.Add(c)
 		}
@@ -1312,46 +1389,6 @@ func main() {
 		finish()
 		return
 	}
-	lines := make([]string, len(g.items))
-	for i, it := range g.items {
-		lines[i] = it.line
-	}
-	res, err := vh.Driver{Path: *driver}.RunParallel(lines)
-	if err != nil {
-		fmt.Fprintln(os.Stderr, err)
-		os.Exit(2)
-	}
-	for i, it := range g.items {
-		rep.Compared++
-		if res[i] == it.goR {
-			continue
-		}
-		if it.kind == "resolve" {
-			if res[i] == "unsure" {
-				rep.Count("resolve:outside-safe-fragment")
-				continue
-			}
-			rep.Add(vh.Case{Kind: "disagreement", Op: it.line, Go: it.goR, Model: res[i], Detail: "IRI resolution inside the safe fragment"})
-			continue
-		}
-		ms, mv := splitWire(res[i])
-		gs, _ := splitWire(it.goR)
-		if mv == "err:resolve" && isPrefixOf(ms, gs) {
-			// the model's resolver declined (outside its safe fragment); the statements before agree
-			rep.Count("resolver-skip")
-			rep.Count("resolver-skip:" + it.kind)
-			if os.Getenv("C05TTL_SHOWSKIPS") != "" && len(it.line) < 400 {
-				f := strings.Fields(it.line)
-				raw, _ := vh.UnX(f[4])
-				fmt.Printf("SKIP %s %s %q\n", f[1], f[3], raw)
-			}
-			continue
-		}
-		rep.Add(vh.Case{Kind: "disagreement", Op: it.line, Go: it.goR, Model: res[i], Detail: it.kind})
-		if *shrinkN > 0 {
-			*shrinkN--
-			fmt.Println("DISAGREEMENT (minimised):", shrinkLine(it.line))
-		}
-	}
+	compare()
 	finish()
 }
